@@ -21,6 +21,8 @@ from typing import (
     overload,
 )
 
+from confectioner.templating import dotted_key_exists
+
 from ._missing import MISSING, MaybeMissing
 from .exceptions import EvaluationError, InsufficientInformationError
 from .option import Option
@@ -72,6 +74,27 @@ class _DependsOn(Generic[A, B], Evaluatable[B]):
 
     def __repr__(self) -> str:
         return f"_DependsOn({self.evaluatable!r}, {self.depends!r})"  # pragma: no cover
+
+
+class _FallbackFor(_DependsOn[A, B]):
+    """The default of a switch, chosen because the dispatch could not be evaluated.
+
+    The choice depends on whatever the dispatch read, so the keys of the
+    dispatch that are present in the options are part of the key set.
+    """
+
+    def _present(self, options: Options) -> Set[str]:
+        try:
+            explained = self.depends.explain(options)
+        except EvaluationError:
+            return set()
+        return {key for key in explained if dotted_key_exists(key, options)}
+
+    def keys(self, options: Options) -> Set[str]:
+        return self.evaluatable.keys(options) | self._present(options)
+
+    def explain(self, options: Optional[Options] = None) -> Set[str]:
+        return self.evaluatable.explain(options) | self._present(options or {})
 
 
 class Switch(Evaluatable[V]):
@@ -139,7 +162,7 @@ class Switch(Evaluatable[V]):
         except EvaluationError as e:
             if self.default is MISSING:
                 raise e
-            return self.default
+            return _FallbackFor(self.default, self.dispatch)  # type: ignore  [arg-type]
 
         if key not in self.lookup:
             if self.default is MISSING:
